@@ -488,8 +488,16 @@ class MatrixSum(Expression):
         For MatrixSum(X), gradient w.r.t. X[i,j] is 1 for all elements in X,
         0 for all other variables.
         """
-        my_vars = self.matrix.get_variables()
-        return [Constant(1.0) if var in my_vars else Constant(0.0) for var in variables]
+        if not isinstance(self.matrix, MatrixVariable):
+            # Elements of a MatrixExpression are arbitrary expressions:
+            # let autodiff differentiate them.
+            return None
+        # A symmetric matrix holds each off-diagonal variable in two positions.
+        counts: dict[Variable, int] = {}
+        for row in self.matrix._variables:
+            for v in row:
+                counts[v] = counts.get(v, 0) + 1
+        return [Constant(float(counts.get(var, 0))) for var in variables]
 
     def __repr__(self) -> str:
         if isinstance(self.matrix, MatrixVariable):
